@@ -135,6 +135,9 @@ pub struct Cfg {
     /// capacity of the in-memory transport per direction (default 1 MiB)
     #[serde(default)]
     pub pipe_cap: Option<usize>,
+    /// C18: the clock advances in steps of keep-alive / time_div (0: 5)
+    #[serde(default)]
+    pub time_div: u8,
 }
 
 impl Cfg {
@@ -155,6 +158,7 @@ impl Cfg {
             recv_max_next: None,
             server_ka: None,
             pipe_cap: None,
+            time_div: 0,
         }
     }
     pub fn prop_static(&self) -> &'static str {
